@@ -282,9 +282,14 @@ def req_parts(url):
     if "(" in proj:
         ids, triples = [proj], []
     else:
-        m = re.match(r"^(.*?)((\[[^\]]*\])*)$", proj)
-        ids = m.group(1).split(",") if m.group(1) else []
-        triples = SLAB.findall(m.group(2))
+        # observables at the level the property speaks about: the variable ids and the per-axis triples, wherever
+        # in an item the hyperslab is written (`s.t,s.f[0:1:8]` and `s[0:1:8].t,s.f` name the same request)
+        ids, triples = [], []
+        for item in (proj.split(",") if proj else []):
+            slabs = re.findall(r"(?:\[[^\]]*\])+", item)
+            ids.append(re.sub(r"\[[^\]]*\]", "", item))
+            if slabs and not triples:
+                triples = SLAB.findall("".join(slabs))
     return ext, ids, triples, sel
 
 
